@@ -5,7 +5,8 @@ from common import Fr, enc_q, dec_q, close, rng
 import gmgen
 
 LEAN_MODULE = 'PGM.Properties.C04'
-LEAN_EXTRA = ['PGM.Properties.C04B']
+LEAN_EXTRA = ['PGM.Properties.C04B', 'PGM.Properties.C04G']
+TRANSLATORS = ('py2inf',)     # _marginal_loss, grouping, _lipschitz and the three solvers of inference.py -> Generated/InferenceG.lean
 TRUSTED = ['Lean 4.33 kernel', 'axioms: propext, Classical.choice, Quot.sound',
            'hand model PGM/Model/Loss.lean tied to src/mbi/inference.py (_setup grouping, _marginal_loss, _lipschitz) by this correspondence run',
            'scipy eigsh modelled by its contract (largest eigenvalue of QtQ, supplied by numpy.eigvalsh); equivalence of dense/sparse/LinearOperator spellings is exercised, not proved',
